@@ -7,6 +7,7 @@ cd /repo || exit 2
 if ! git diff --quiet -- src; then echo "repo not clean"; exit 2; fi
 git apply "$d/patch.diff" || { echo "patch does not apply" > "$d/result.txt"; exit 2; }
 {
+  echo "== tree $(git -C /repo rev-parse --short HEAD) + $(basename $d)"
   echo "== build + ctest"
   if cmake --build /repo/_build -j 14 > /tmp/seeded_build.log 2>&1; then echo "build ok"; else echo "BUILD FAILED"; tail -5 /tmp/seeded_build.log; fi
   ctest --test-dir /repo/_build -j8 --timeout 900 2>&1 | grep -E "tests passed|tests failed"
